@@ -40,6 +40,12 @@ func readVolume(volumeBytes []byte) (volume, error) {
 	// TODO: Check count of files saved in volume set, and other
 	// offsets and bytes.
 
+	// Every entry takes up at least its header, so a count larger
+	// than the remaining input is bogus.
+	if header.FileCount > uint64(buf.Len())/sizeOfFileEntryHeader() {
+		return volume{}, errors.New("invalid file count")
+	}
+
 	entries := make([]fileEntry, header.FileCount)
 	var setHashInput []byte
 	for i := uint64(0); i < header.FileCount; i++ {
